@@ -785,6 +785,13 @@ class Rechunk(ArrayExpr):
         # Only match Rechunk, not TasksRechunk (which is already lowered)
         # Don't merge if inner has method='p2p' - preserve explicit p2p semantics
         if type(self.array) is Rechunk and self.array.method != "p2p":
+            target = self._settled_target()
+            if target is not None:
+                # The settled target (spec resolved against the *inner rechunk's*
+                # chunks, balance applied), verbatim and with balance off: the raw
+                # spec would be re-resolved against the inner rechunk's input and
+                # inherit the inner rechunk's balance.
+                return Rechunk(self.array.array, target, self.threshold, self.block_size_limit, False, self.method)
             return Rechunk(
                 self.array.array,
                 self._chunks,
@@ -813,6 +820,18 @@ class Rechunk(ArrayExpr):
 
         # Rechunk(IO) -> IO with new chunks (if IO supports it)
         return self._pushdown_into_io()
+
+    def _settled_target(self):
+        """``self.chunks`` when every size is known, else None.
+
+        Pushdowns hand the inner rechunks this settled target rather than the raw
+        spec: the spec (ints, 'auto', None entries, balance) resolves differently
+        against another array's chunks.
+        """
+        target = self.chunks
+        if any(math.isnan(c) for dim in target for c in dim):
+            return None
+        return target
 
     def _pushdown_into_io(self):
         """Rechunk(IO) -> IO reading at the target chunks, when the source
@@ -954,7 +973,7 @@ class Rechunk(ArrayExpr):
 
         transpose = self.array
         axes = transpose.axes
-        chunks = self._chunks
+        chunks = self._settled_target() or self._chunks
 
         if isinstance(chunks, tuple):
             # Map output chunks back through transpose axes to get input chunks
@@ -984,7 +1003,7 @@ class Rechunk(ArrayExpr):
 
         elemwise = self.array
         out_ind = elemwise.out_ind
-        chunks = self._chunks
+        chunks = self._settled_target() or self._chunks
 
         # Convert dict chunks to tuple for positional indexing
         if isinstance(chunks, dict):
